@@ -79,7 +79,11 @@ Definition lookup (r : mesh) (d : nat) (a : string) (i j : nat) : option N :=
 Definition read_component (o : wopts) (m : wmesh) (r : mesh) (x : wattr) (i j : nat) : option N * sty :=
   (* texture coordinates no writer names come back as the TexCoord attribute (face element of a triangle mesh;
      a repaired writer may also emit them per vertex as s/t) *)
-  if is_attr 2 "TexCoord" x && negb (claimed (o_writers o) 2 "TexCoord")
+  if is_attr 2 "TexCoord" x
+     && (negb (claimed (o_writers o) 2 "TexCoord")
+         (* a triangle mesh with at least one face: whatever a writer stored per vertex, the reader takes the
+            per-corner float list of the face element *)
+         || (match w_topo m with TTriangle => negb (Nat.eqb (nprims m) 0) | TPoint => false end))
   then (lookup r 2 "TexCoord" i j, Float) else
   match first_writer o x with
   | Some w =>
@@ -92,9 +96,13 @@ Definition read_component (o : wopts) (m : wmesh) (r : mesh) (x : wattr) (i j : 
 (* a read-back value against the original float32 word at the precision of the stored type *)
 Fixpoint index_of (v : N) (l : list N) (k : N) : option N :=
   match l with [] => None | x :: r => if x =? v then Some k else index_of v r (N.succ k) end.
+(* v is b/255 up to one unit in the last place (vector2.DivByConstant multiplies by the reciprocal, the other
+   readers divide; positive float64 bit patterns are ordered like the values) *)
+Fixpoint index_near (v : N) (l : list N) (k : N) : option N :=
+  match l with [] => None | x :: r => if (x <=? v + 1) && (v <=? x + 1) then Some k else index_near v r (N.succ k) end.
 Definition close255 (w v : N) : bool :=
   (* v = b/255 for a byte b with |b - 255 x| < 1, x the value of w (0 <= x <= 1) *)
-  match index_of v div255_tab 0 with
+  match index_near v div255_tab 0 with
   | None => false
   | Some b =>
       let e := (w / 2 ^ 23) mod 256 in let m := w mod 2 ^ 23 in
